@@ -317,7 +317,7 @@ class MiniPCNMutate(Contract):
         return Pre(s, [parts, R(beta)], ghost={"s": s, "beta": beta, "n": n, "parts": parts, "acc_len0": acc.len})
 
     def hooks(self, I, pre):
-        return {"samples:BaseSamples.array_to_namespace": a2ns_hook}
+        return {"samples:BaseSamples.array_to_namespace": a2ns_hook, "utils:asarray": asarray_hook}
 
     def post(self, I, pre, r):
         p, g = I.path, pre.ghost
@@ -456,6 +456,12 @@ def a2ns_hook(I, info, bound, args, kwargs, n):
     I.path.event("array_to_namespace", bound, args[0] if args else kwargs.get("x"))
 
 
+def asarray_hook(I, info, bound, args, kwargs, n):
+    """utils.asarray(x, xp, dtype=...) is the conversion array_to_namespace itself performs: calling it directly counts as well"""
+    if "dtype" in kwargs or len(args) > 2:
+        I.path.event("array_to_namespace", None, args[0] if args else kwargs.get("x"))
+
+
 def likelihood_output_normalised(I, q, tag="", only_for=None):
     """C15: whatever the user's likelihood returns (any namespace, any width - e.g. accumulated on the host in float64) is converted into the
     population's namespace and precision before it is stored next to the coordinates"""
@@ -472,7 +478,7 @@ class ImportanceSample(Contract):
         return True
 
     def hooks(self, I, pre):
-        return {"samples:BaseSamples.array_to_namespace": a2ns_hook}
+        return {"samples:BaseSamples.array_to_namespace": a2ns_hook, "utils:asarray": asarray_hook}
 
     qual = "samplers.importance:ImportanceSampler.sample"
     properties = ("C10", "C17", "C02", "C15")
